@@ -4,6 +4,7 @@ import (
 	"fmt"
 	"io"
 	"sync"
+	"sync/atomic"
 
 	"github.com/bmeg/grip/engine/pipeline"
 	"github.com/bmeg/grip/gdbi"
@@ -223,8 +224,10 @@ func (server *GripServer) BulkAdd(stream gripql.Edit_BulkAddServer) error {
 	var graphName string
 	var insertCount int32
 	var errorCount int32
+	var loadErrors int32
 
-	elementStream := make(chan *gdbi.GraphElement, 100)
+	// elementStream is nil unless a loader for graphName is running
+	var elementStream chan *gdbi.GraphElement
 	wg := &sync.WaitGroup{}
 
 	for {
@@ -247,8 +250,12 @@ func (server *GripServer) BulkAdd(stream gripql.Edit_BulkAddServer) error {
 
 		// create a BulkAdd stream per graph
 		// close and switch when a new graph is encountered
-		if element.Graph != graphName {
-			close(elementStream)
+		if element.Graph != graphName || elementStream == nil {
+			if elementStream != nil {
+				close(elementStream)
+				elementStream = nil
+			}
+			graphName = ""
 			gdb, err := server.getGraphDB(element.Graph)
 			if err != nil {
 				errorCount++
@@ -266,16 +273,16 @@ func (server *GripServer) BulkAdd(stream gripql.Edit_BulkAddServer) error {
 			elementStream = make(chan *gdbi.GraphElement, 100)
 
 			wg.Add(1)
-			go func() {
-				log.WithFields(log.Fields{"graph": element.Graph}).Info("BulkAdd: streaming elements to graph")
-				err := graph.BulkAdd(elementStream)
+			go func(graphName string, elements chan *gdbi.GraphElement) {
+				log.WithFields(log.Fields{"graph": graphName}).Info("BulkAdd: streaming elements to graph")
+				err := graph.BulkAdd(elements)
 				if err != nil {
-					log.WithFields(log.Fields{"graph": element.Graph, "error": err}).Error("BulkAdd: error")
+					log.WithFields(log.Fields{"graph": graphName, "error": err}).Error("BulkAdd: error")
 					// not a good representation of the true number of errors
-					errorCount++
+					atomic.AddInt32(&loadErrors, 1)
 				}
 				wg.Done()
-			}()
+			}(graphName, elementStream)
 		}
 
 		if element.Vertex != nil {
@@ -304,8 +311,11 @@ func (server *GripServer) BulkAdd(stream gripql.Edit_BulkAddServer) error {
 		}
 	}
 
-	close(elementStream)
+	if elementStream != nil {
+		close(elementStream)
+	}
 	wg.Wait()
+	errorCount += atomic.LoadInt32(&loadErrors)
 
 	return stream.SendAndClose(&gripql.BulkEditResult{InsertCount: insertCount, ErrorCount: errorCount})
 }
